@@ -23,7 +23,7 @@ from vlib import pbt, tngrammar
 ID = "C15"
 LEVEL = "exploration"
 RULE = (
-    "cases: every string over {a,b,<,>,','} and {a,<,>,','} up to the tier's length bound "
+    "cases: every string over {a,b,<,>,','}, {a,<,>,','} and {%,s,<,>,','} up to the tier's length bound "
     "(exhaustive, distinct by construction), plus Hypothesis-generated grammar trees printed to "
     "strings (names over all of Unicode) and single-edit mutants of them; a case is non-trivial "
     "when the string contains at least one '<' and at least one name character; oracle = "
@@ -185,6 +185,8 @@ def strategies():
     name_chars = st.characters(blacklist_characters="<>,", blacklist_categories=("Cs",))
     name = st.one_of(
         st.sampled_from(["a", "b", "string", "UUID", "mapping", "sequence", " x", "é", "\n", "\x00"]),
+        # characters that mean something to printf / str.format / regular expressions / shells
+        st.sampled_from(["%s", "%d", "a%sb", "%(x)s", "%", "%%", "{}", "{0}", "{x}", "\\", "$1", ".*", "(", ")", "[a]", "'", '"', "#", "a b", "\t"]),
         st.text(name_chars, min_size=1, max_size=6),
     )
 
@@ -353,10 +355,13 @@ def jobs(tier, seed):
     if tier == "quick":
         enum = _prefix_jobs("ab<>,", 8, 2, 6, 5)
         enum += _prefix_jobs("a<>,", 9, 2, 2, 5, count_minlen=8)
+        enum += _prefix_jobs("%s<>,", 7, 2, 2, 5)
         n, shards = 6000, 4
     else:
         enum = _prefix_jobs("ab<>,", 11, 3, 40, 7)
         enum += _prefix_jobs("a<>,", 13, 3, 24, 7, count_minlen=11)
+        enum += _prefix_jobs("%s<>,", 10, 3, 16, 7)
+        enum += _prefix_jobs("{}<>,", 9, 3, 8, 7)
         n, shards = 160000, 16
     for k in range(shards):
         out.append(
